@@ -23,7 +23,7 @@ Inductive case :=
 | CLib (ref : list Z) (obs : list (list Z)) (foreign : Z)
 (* channel.make(n) under pcall for each n, next to a state that computes: (n, a channel came back?)
    and whether the neighbour's result was right; a dead process is a GoFail *)
-| CMake (obs : list (Z * bool)) (neighbour_ok : bool).
+| CMake (obs : list (Z * bool)) (neighbour_ok_and_empty_select_refused : bool).
 
 Definition zlist_eqb (a b : list Z) : bool := list_eqb Z.eqb a b.
 
